@@ -354,7 +354,7 @@ func (p *pathState) recordViolation(label, kind, detail string, model map[string
 	v := Violation{
 		Harness: p.w.eng.curHarness.Func, Label: label, Kind: kind, Detail: detail,
 		Inputs: in, Decisions: append([]int{}, p.decisions...),
-		Threads: p.w.m.sch != nil && len(p.w.m.sch.gs) > 1,
+		Threads: p.w.m.ranThreads || p.w.m.sch != nil && len(p.w.m.sch.gs) > 1,
 	}
 	p.w.eng.addViolation(v)
 }
